@@ -68,6 +68,7 @@ struct Inst {
 	Req prevExpected;
 	bool prevLenientEmptyOk = false;   // after replayTransition(INVALID): unchanged or empty
 	bool loggerAttached = false;
+	bool planEditedSinceCompare = false;   // the harness edited the plan since the last comparison that agreed
 
 	Step st;
 
@@ -358,7 +359,9 @@ struct World {
 		Step& s = in.st;
 		if ((s.op == OP_UPDATE || s.op == OP_REACT) && s.planPhase == 0 && !s.planWindowUsed) {
 			const auto plan = phasePlan(in, s.op, s.cur0);
-			if (s.phaseIdx >= plan.size() && !s.phaseError) {
+			// (when the phase sequence itself is broken - reported under C05 - the window still opens at
+			// the first event that can only belong to or follow the plan step, so that C08/C09 are not blamed)
+			if (s.phaseIdx >= plan.size() || s.phaseError) {
 				s.planWindowUsed = true;
 				s.planPhase = 1;
 				s.planAtStep = in.plan;
@@ -696,9 +699,10 @@ struct World {
 		s.userClearAfterReport = false;
 	}
 
-	void notePlanAppend(Inst& in, const Task& t) { flags |= F_PLANEDIT; in.plan.push_back(t); in.tasksAdded = true; in.st.planEditedThisCycle = true; }
-	void notePlanRemove(Inst& in, size_t idx) { if (idx < in.plan.size()) in.plan.erase(in.plan.begin() + static_cast<long>(idx)); in.st.planEditedThisCycle = true; }
+	void notePlanAppend(Inst& in, const Task& t) { flags |= F_PLANEDIT; in.planEditedSinceCompare = true; in.plan.push_back(t); in.tasksAdded = true; in.st.planEditedThisCycle = true; }
+	void notePlanRemove(Inst& in, size_t idx) { in.planEditedSinceCompare = true; if (idx < in.plan.size()) in.plan.erase(in.plan.begin() + static_cast<long>(idx)); in.st.planEditedThisCycle = true; }
 	void notePlanClear(Inst& in) {
+		in.planEditedSinceCompare = true;
 		in.plan.clear();
 		in.clearStatuses(false);
 		in.st.userClearAfterReport = true;
